@@ -188,6 +188,53 @@ def worker(scn):
         shutil.rmtree(d, ignore_errors=True)
 
 
+def include_sharing_rows():
+    """Two packages include the same .cond file that defines a list and a dict; the COND file that is loaded FIRST changes them in
+    place and uses them; the other one uses them as they come.  -> rows for the record clauses of both experiments."""
+    out = []
+    for v in range(4):
+        d = tempfile.mkdtemp(prefix="cvc10i_", dir=C.scratch_root())
+        try:
+            root = os.path.join(d, "p")
+            os.makedirs(os.path.join(root, "lib"))
+            os.makedirs(os.path.join(root, "base"))
+            os.makedirs(os.path.join(root, "top"))
+            with open(os.path.join(root, "cond_config.toml"), "w") as f:
+                f.write("disable_git = true\n")
+            with open(os.path.join(root, "lib", "common.cond"), "w") as f:
+                f.write("ARGS = %r\nOPTS = %r\n" % (["x"] if v % 2 else [], {"k": 1} if v < 2 else {}))
+            with open(os.path.join(root, "base", "COND"), "w") as f:
+                f.write("include('//lib/common.cond')\nrun_experiment(name='e1', run='true', args=ARGS, options=OPTS)\n")
+            with open(os.path.join(root, "top", "COND"), "w") as f:
+                f.write("include('//lib/common.cond')\nARGS += ['extra', 3]\nOPTS['fast'] = True\n"
+                        "run_experiment(name='e2', run='true', args=ARGS, options=OPTS, deps=['//base:e1'])\n")
+            r = C.fork_map(lambda _: CLI.run_cli(root, ["run", "//top:e2"], clock=100), [0], nproc=1, timeout=120)[0]
+            exp = {"e1": ("base", ["x"] if v % 2 else [], {"k": 1} if v < 2 else {}),
+                   "e2": ("top", (["x"] if v % 2 else []) + ["extra", 3], dict({"k": 1} if v < 2 else {}, fast=True))}
+            for nm, (pkg, eargs, eopts) in exp.items():
+                base = os.path.join(root, "cond-out", pkg)
+                dirs = [x for x in (os.listdir(base) if os.path.isdir(base) else []) if x.startswith(nm + ".task.")]
+                od = os.path.join(base, dirs[0]) if dirs else ""
+
+                def dec(fn):
+                    p_ = os.path.join(od, fn)
+                    if not od or not os.path.isfile(p_):
+                        return None
+                    try:
+                        return json.loads(open(p_, "rb").read().decode("utf-8"))
+                    except Exception:
+                        return "<undecodable>"
+                a, o = dec("args.json"), dec("options.json")
+                out.append({"id": 900000 + v * 2 + (nm == "e2"), "mode": "seq", "failed": not (isinstance(r, dict) and r.get("status") == 0),
+                            "written": [[], []], "logged": [[], []], "forwarded": [[], []],
+                            "argsPresent": a is not None, "argsNonEmpty": bool(eargs), "argsEqual": a is None or a == eargs,
+                            "optsPresent": o is not None, "optsNonEmpty": bool(eopts), "optsEqual": o is None or o == eopts,
+                            "extraBytes": 0, "exit": r.get("status") if isinstance(r, dict) else -1, "_args": eargs, "_opts": eopts})
+        finally:
+            shutil.rmtree(d, ignore_errors=True)
+    return out
+
+
 def same_value(a, b):
     if type(a) is not type(b):
         return False
@@ -243,6 +290,15 @@ def main(tier):
                      "argsPresent": r["args_json"] is not None, "argsNonEmpty": bool(scn["args"]), "argsEqual": args_ok,
                      "optsPresent": r["opts_json"] is not None, "optsNonEmpty": bool(scn["opts"]), "optsEqual": opts_ok,
                      "extraBytes": e1 + e2 + len(lo.get(2, [])) + len(le.get(1, [])), "exit": r["status"]})
+    # args / options built from objects that come out of a shared include(): every COND file evaluates the include for itself,
+    # so what one file does to "its" list or dict is nobody else's business
+    inc_rows = C.fork_map(lambda _: include_sharing_rows(), [0], timeout=300)[0]
+    if not isinstance(inc_rows, list):
+        rep.machinery("shared-include runs failed: %s" % str(inc_rows)[:400])
+        return rep.finish()
+    for ir in inc_rows:
+        scns.append({"k": ir["id"], "mode": ir["mode"], "plan": {"seed": 0, "blocks": []}, "args": ir.pop("_args"), "opts": ir.pop("_opts")})
+        rows.append(ir)
     with C.Scratch("tjudge") as d:
         fpath = os.path.join(d, "rows.ndjson")
         with open(fpath, "w") as fh:
